@@ -3,6 +3,7 @@ import Proofs.Lemmas.So3Exp
 import Mathlib.Analysis.SpecialFunctions.Sqrt
 import Mathlib.Analysis.SpecialFunctions.Trigonometric.Deriv
 set_option maxRecDepth 10000
+set_option linter.unusedSimpArgs false
 namespace PP.AD
 open PP
 
@@ -85,15 +86,95 @@ theorem so3Exp_tangent (eps : ℝ) (heps : 0 ≤ eps) (x : ℝ → DVec ℝ) (d0
         / Real.sqrt (nth (x t) 0 * nth (x t) 0 + nth (x t) 1 * nth (x t) 1 + nth (x t) 2 * nth (x t) 2) * nth (x t) 0) ?_ ?_
     · refine (hF.mul h0).congr_deriv ?_
       rw [hval]
-      simp only [← ha, ← hb, ← hc, ← hθ]
+      try simp only [← ha, ← hb, ← hc, ← hθ]
       fwd_unfold; lie_unfold
       simp only [JlMat, so3Jl, so3JlCoef, lt_real, hth, decide_true, if_true, polyK, Mat3.toRows, Vec3.toList, DMat.mulVec,
         DVec.dot, DVec.sum, List.map, List.zipWith, List.foldl, nth_cons_zero, nth_cons_succ, hnorm, sin_real, cos_real,
         v3, ← ha, ← hb, ← hc, ← hθ]
-      trace_state
-      sorry
+      have hn' : ({ x := a, y := b, z := c } : Vec3 ℝ).norm = θ := by
+        rw [← hnorm]; simp [v3, ha, hb, hc]
+      have hth' : eps < θ := by rw [← hnorm]; exact hth
+      simp only [hn', hth', decide_true, if_true]
+      lie_unfold
+      rw [hsin, hcos, hdθ]
+      have hθne : θ ≠ 0 := ne_of_gt hθpos
+      field_simp
+      have hsc' := Real.sin_sq_add_cos_sq (θ / 2)
+      have hθ2' : θ ^ 2 = a ^ 2 + b ^ 2 + c ^ 2 := by rw [pow_two, hθ2]; ring
+      clear hsc hsin hcos hF hS hC hT hN hcont hev hval hnormt hx h0 h1 h2 hth hnorm hn' hdθ
+      grind
     · filter_upwards [hev] with t ht
       simp only [expF, so3Exp_closed eps _ ht, hnormt t]
       simp [Quat.mk', Vec3.smul, Quat.toList, v3]
-  all_goals sorry
+  · refine HasDerivAt.congr_of_eventuallyEq (f := fun t => Real.sin (1/2 * Real.sqrt (nth (x t) 0 * nth (x t) 0 + nth (x t) 1 * nth (x t) 1 + nth (x t) 2 * nth (x t) 2))
+        / Real.sqrt (nth (x t) 0 * nth (x t) 0 + nth (x t) 1 * nth (x t) 1 + nth (x t) 2 * nth (x t) 2) * nth (x t) 1) ?_ ?_
+    · refine (hF.mul h1).congr_deriv ?_
+      rw [hval]
+      try simp only [← ha, ← hb, ← hc, ← hθ]
+      fwd_unfold; lie_unfold
+      simp only [JlMat, so3Jl, so3JlCoef, lt_real, hth, decide_true, if_true, polyK, Mat3.toRows, Vec3.toList, DMat.mulVec,
+        DVec.dot, DVec.sum, List.map, List.zipWith, List.foldl, nth_cons_zero, nth_cons_succ, hnorm, sin_real, cos_real,
+        v3, ← ha, ← hb, ← hc, ← hθ]
+      have hn' : ({ x := a, y := b, z := c } : Vec3 ℝ).norm = θ := by
+        rw [← hnorm]; simp [v3, ha, hb, hc]
+      have hth' : eps < θ := by rw [← hnorm]; exact hth
+      simp only [hn', hth', decide_true, if_true]
+      lie_unfold
+      rw [hsin, hcos, hdθ]
+      have hθne : θ ≠ 0 := ne_of_gt hθpos
+      field_simp
+      have hsc' := Real.sin_sq_add_cos_sq (θ / 2)
+      have hθ2' : θ ^ 2 = a ^ 2 + b ^ 2 + c ^ 2 := by rw [pow_two, hθ2]; ring
+      clear hsc hsin hcos hF hS hC hT hN hcont hev hval hnormt hx h0 h1 h2 hth hnorm hn' hdθ
+      grind
+    · filter_upwards [hev] with t ht
+      simp only [expF, so3Exp_closed eps _ ht, hnormt t]
+      simp [Quat.mk', Vec3.smul, Quat.toList, v3]
+  · refine HasDerivAt.congr_of_eventuallyEq (f := fun t => Real.sin (1/2 * Real.sqrt (nth (x t) 0 * nth (x t) 0 + nth (x t) 1 * nth (x t) 1 + nth (x t) 2 * nth (x t) 2))
+        / Real.sqrt (nth (x t) 0 * nth (x t) 0 + nth (x t) 1 * nth (x t) 1 + nth (x t) 2 * nth (x t) 2) * nth (x t) 2) ?_ ?_
+    · refine (hF.mul h2).congr_deriv ?_
+      rw [hval]
+      try simp only [← ha, ← hb, ← hc, ← hθ]
+      fwd_unfold; lie_unfold
+      simp only [JlMat, so3Jl, so3JlCoef, lt_real, hth, decide_true, if_true, polyK, Mat3.toRows, Vec3.toList, DMat.mulVec,
+        DVec.dot, DVec.sum, List.map, List.zipWith, List.foldl, nth_cons_zero, nth_cons_succ, hnorm, sin_real, cos_real,
+        v3, ← ha, ← hb, ← hc, ← hθ]
+      have hn' : ({ x := a, y := b, z := c } : Vec3 ℝ).norm = θ := by
+        rw [← hnorm]; simp [v3, ha, hb, hc]
+      have hth' : eps < θ := by rw [← hnorm]; exact hth
+      simp only [hn', hth', decide_true, if_true]
+      lie_unfold
+      rw [hsin, hcos, hdθ]
+      have hθne : θ ≠ 0 := ne_of_gt hθpos
+      field_simp
+      have hsc' := Real.sin_sq_add_cos_sq (θ / 2)
+      have hθ2' : θ ^ 2 = a ^ 2 + b ^ 2 + c ^ 2 := by rw [pow_two, hθ2]; ring
+      clear hsc hsin hcos hF hS hC hT hN hcont hev hval hnormt hx h0 h1 h2 hth hnorm hn' hdθ
+      grind
+    · filter_upwards [hev] with t ht
+      simp only [expF, so3Exp_closed eps _ ht, hnormt t]
+      simp [Quat.mk', Vec3.smul, Quat.toList, v3]
+  · refine HasDerivAt.congr_of_eventuallyEq (f := fun t => Real.cos (1/2 * Real.sqrt (nth (x t) 0 * nth (x t) 0 + nth (x t) 1 * nth (x t) 1 + nth (x t) 2 * nth (x t) 2))) ?_ ?_
+    · refine hC.congr_deriv ?_
+      rw [hval]
+      try simp only [← ha, ← hb, ← hc, ← hθ]
+      fwd_unfold; lie_unfold
+      simp only [JlMat, so3Jl, so3JlCoef, lt_real, hth, decide_true, if_true, polyK, Mat3.toRows, Vec3.toList, DMat.mulVec,
+        DVec.dot, DVec.sum, List.map, List.zipWith, List.foldl, nth_cons_zero, nth_cons_succ, hnorm, sin_real, cos_real,
+        v3, ← ha, ← hb, ← hc, ← hθ]
+      have hn' : ({ x := a, y := b, z := c } : Vec3 ℝ).norm = θ := by
+        rw [← hnorm]; simp [v3, ha, hb, hc]
+      have hth' : eps < θ := by rw [← hnorm]; exact hth
+      simp only [hn', hth', decide_true, if_true]
+      lie_unfold
+      rw [hsin, hcos, hdθ]
+      have hθne : θ ≠ 0 := ne_of_gt hθpos
+      field_simp
+      have hsc' := Real.sin_sq_add_cos_sq (θ / 2)
+      have hθ2' : θ ^ 2 = a ^ 2 + b ^ 2 + c ^ 2 := by rw [pow_two, hθ2]; ring
+      clear hsc hsin hcos hF hS hC hT hN hcont hev hval hnormt hx h0 h1 h2 hth hnorm hn' hdθ
+      grind
+    · filter_upwards [hev] with t ht
+      simp only [expF, so3Exp_closed eps _ ht, hnormt t]
+      simp [Quat.mk', Vec3.smul, Quat.toList, v3]
 end PP.AD
